@@ -168,6 +168,12 @@ class G:
                 if i == steps // 2 and self.shadows:
                     for y in self.shadows:
                         self.emit("dig %s" % y)
+            # degenerate ranges: an exclusive end of 0 is an empty range whatever the start is
+            if r.random() < 0.6 or not getattr(self, "_end0_done", False):
+                self._end0_done = True
+                for op0 in ("remr", "addr", "flip"):
+                    self.emit("%s %s %d 0" % (op0, x, r.choice([0, 1, 65536, self.val_near(keys), U32 - 1])))
+                self.count("hist:end0")
             # the copies taken along the way still hold what they held when they were taken (or what was added to them since)
             for y in self.shadows:
                 self.emit("dig %s" % y)
